@@ -176,6 +176,22 @@ func errflowFrom(P *Prog, e ssa.Value, cfg *errflowCfg, depth int) efResult {
 	if len(fn.Blocks) == 0 {
 		return efResult{false, "function without body", nil}
 	}
+	start := carrierSet{e: true}
+	if def != nil {
+		b := def.Block()
+		return errflowCore(P, fn, def, b, idxIn(b, def)+1, start, cfg, depth)
+	}
+	return errflowCore(P, fn, nil, fn.Blocks[0], 0, start, cfg, depth)
+}
+
+// errflowFromEdge: every Return reachable from the CFG edge from->to must
+// return a provably non-nil error (or pass a sink). Used for "condition C
+// observed => the caller is told".
+func errflowFromEdge(P *Prog, from, to *ssa.BasicBlock, cfg *errflowCfg) efResult {
+	return errflowCore(P, from.Parent(), nil, to, 0, enterBlock(carrierSet{}, from, to), cfg, 0)
+}
+
+func errflowCore(P *Prog, fn *ssa.Function, def ssa.Instruction, startBlock *ssa.BasicBlock, startIdx int, start carrierSet, cfg *errflowCfg, depth int) efResult {
 	type state struct {
 		b    *ssa.BasicBlock
 		from int // index in b.Instrs to start at
@@ -428,13 +444,7 @@ func errflowFrom(P *Prog, e ssa.Value, cfg *errflowCfg, depth int) efResult {
 			explore(state{s, 0, enterBlock(car, st.b, s), append(append([]string{}, st.trail...), fmt.Sprintf("b%d", s.Index))})
 		}
 	}
-	start := carrierSet{e: true}
-	if def != nil {
-		b := def.Block()
-		explore(state{b, idxIn(b, def) + 1, start, []string{fmt.Sprintf("%s b%d", short(fn.String()), b.Index)}})
-	} else {
-		explore(state{fn.Blocks[0], 0, start, []string{fmt.Sprintf("%s b0", short(fn.String()))}})
-	}
+	explore(state{startBlock, startIdx, start, []string{fmt.Sprintf("%s b%d", short(fn.String()), startBlock.Index)}})
 	if fail != nil {
 		return *fail
 	}
@@ -460,7 +470,7 @@ func enterBlock(car carrierSet, from, to *ssa.BasicBlock) carrierSet {
 			continue
 		}
 		inc := strip(phi.Edges[pi])
-		if car[inc] {
+		if car[inc] || isNonNilConstErr(phi.Edges[pi]) {
 			if !car[phi] {
 				if out == nil {
 					out = car.clone()
@@ -608,4 +618,19 @@ func bodyAlwaysSinks(P *Prog, body, header *ssa.BasicBlock, car carrierSet, cfg 
 		return true
 	}
 	return walk(body)
+}
+
+// isNonNilConstErr: a package-level sentinel or a freshly constructed error.
+func isNonNilConstErr(v ssa.Value) bool {
+	if !isErrorType(v.Type()) {
+		return false
+	}
+	if _, ok := v.(*ssa.MakeInterface); ok {
+		return true
+	}
+	v = strip(v)
+	if c, ok := v.(*ssa.Call); ok && nonNilErrCallees[calleeName(c)] {
+		return true
+	}
+	return globalName(v) != ""
 }
